@@ -1252,7 +1252,7 @@ var hugeSizes = []int{1 << 20, 1<<20 + 1, 2 << 20, 2<<20 + 1, 4<<20 - 1, 4 << 20
 func genMsg(t *rapid.T, i int, enc string) Msg {
 	var m Msg
 	// now and then a message that is tiny on the wire and huge once decoded
-	if compresses(enc) && rapid.IntRange(0, 2499).Draw(t, "huge") == 0 {
+	if compresses(enc) && rapid.IntRange(0, 299).Draw(t, "huge") == 171 { // (rapid favours the ends of a range: a value in the middle is a rare one)
 		if rapid.Bool().Draw(t, "huge_exact") {
 			m.N = rapid.SampledFrom(hugeSizes).Draw(t, "n")
 		} else {
@@ -1395,7 +1395,7 @@ func genCase(t *rapid.T) Case {
 	return c
 }
 
-const ruleGen = "rapid draws per direction an encoding (absent/identity/gzip/deflate/snappy), 0..6 messages (sizes 0..70000, edge-biased; 1 compressed message in 2500 expands to 1..16 MiB - zeros or a repeated pattern, a few KiB on the wire; compressed flag; random/text/zero payloads; compressed by compress/gzip (1..3 members, optional empty last member, optional FEXTRA/FNAME/FCOMMENT), compress/flate at 4 levels or compress/zlib (the RFC 1950 wrapper grpc-core uses for deflate), snappy framing writer), a cut set of the length-prefixed byte stream (none, message boundaries, inside 5-byte prefixes, fixed frame size, random offsets, every byte), optional empty DATA frames, END_STREAM on the last DATA frame / a separate empty frame / trailers / absent; content-type application/grpc (mostly), +proto/+json, or non-gRPC; 1 in 8 gRPC requests is answered by a non-gRPC response (text/html etc., plain or framing-like body); in 3 of 4 cases extra regular header fields (grpc-accept-encoding, grpc-timeout, user-agent) and a drawn permutation of all regular fields (grpc-encoding before or after content-type); both directions interleaved, sequential or on two goroutines; processors on both or one direction, forwarding the slice they were given or (1 in 3) a copy of it; 1 in 4 responses is preceded by one or two 1xx HEADERS (100, 103). Non-trivial = gRPC stream with a cut inside a 5-byte prefix or inside a payload, or a compressed message, or a separate END_STREAM frame."
+const ruleGen = "rapid draws per direction an encoding (absent/identity/gzip/deflate/snappy), 0..6 messages (sizes 0..70000, edge-biased; about 1 case in 150 carries a compressed message that expands to 1..16 MiB - zeros or a repeated pattern, a few KiB on the wire; compressed flag; random/text/zero payloads; compressed by compress/gzip (1..3 members, optional empty last member, optional FEXTRA/FNAME/FCOMMENT), compress/flate at 4 levels or compress/zlib (the RFC 1950 wrapper grpc-core uses for deflate), snappy framing writer), a cut set of the length-prefixed byte stream (none, message boundaries, inside 5-byte prefixes, fixed frame size, random offsets, every byte), optional empty DATA frames, END_STREAM on the last DATA frame / a separate empty frame / trailers / absent; content-type application/grpc (mostly), +proto/+json, or non-gRPC; 1 in 8 gRPC requests is answered by a non-gRPC response (text/html etc., plain or framing-like body); in 3 of 4 cases extra regular header fields (grpc-accept-encoding, grpc-timeout, user-agent) and a drawn permutation of all regular fields (grpc-encoding before or after content-type); both directions interleaved, sequential or on two goroutines; processors on both or one direction, forwarding the slice they were given or (1 in 3) a copy of it; 1 in 4 responses is preceded by one or two 1xx HEADERS (100, 103). Non-trivial = gRPC stream with a cut inside a 5-byte prefix or inside a payload, or a compressed message, or a separate END_STREAM frame."
 
 var propReframe = &kit.Prop[Case]{
 	ID: "C11", Name: "reframe", Rule: ruleGen,
